@@ -124,6 +124,8 @@ def c06(run):
     run.validate("frame", t, "Trace_frame", label="(R) byte shapes -> field values", chunk=8000)
     t = run.record("frame", "japayload", n=T(run, 3000, 100000))
     run.validate("frame", t, "Trace_frame", label="(V) decrypted join-accept payloads with reserved bits / bytes set -> field values", chunk=8000)
+    t = run.record("crypto", "method", n=T(run, 120, 3000))
+    run.validate("crypto", t, "Trace_crypto", prefix="C03.method", label="(V) the frame a sender holds after the Encrypt* / Decrypt* methods: FOptsLen, FOpts and payload bytes as specified", chunk=T(run, 130, 220))
     run.require_kinds("maccmd/enc", "maccmd/dec", "frame/rt", "frame/bytes", "frame/japl")
     run.rc = run.finish(assumptions=FRAME_ASSUME + ["DutyCycleReq is modelled as a whole byte (4-bit field + legacy 255): values 16..255 are DON'T-CARE"])
 
@@ -235,6 +237,8 @@ def c15(run):
     run.validate("chplan", t, "Trace_chplan", label="(V) operation histories with arbitrary int arguments, all 14 bands", chunk=T(run, 150, 1500), group_on="reset")
     t = run.record("chplan", "drranges")
     run.validate("chplan", t, "Trace_chplan", label="(V) every band x every data-rate range a..b added as a custom channel", chunk=300, group_on="reset")
+    t = run.record("chplan", "plan", n=T(run, 28, 1400))
+    run.validate("chplan", t, "Trace_chplan", label="(V) planner / applier called with device channel lists incl. indices the plan does not have: they return", chunk=T(run, 400, 4000))
     t = run.record("chplan", "xlayer")
     run.validate("chplan", t, "Trace_chplan", label="(V) MAC-layer encodability of band outputs")
     t = run.record("band", "tables")
@@ -397,6 +401,8 @@ def c10(run):
     run.validate("regconc", t, "Trace_regconc", label="(V) free-running lookups / registrations, hook events in sequence order", chunk=3000, group_on="reset")
     t = run.record("regconc", "mix", n=T(run, 9, 150))
     run.validate("crypto", t, "Trace_crypto", label="(V) concurrent MIC / encryption / decrypt-then-decode on distinct values vs the sequential specification", chunk=T(run, 60, 200), prefix="C0")
+    t = run.record("maccmd", "shared", n=T(run, 2, 40))
+    run.validate("maccmd", t, "Trace_maccmd", label="(V) six goroutines decoding the SAME source bytes: every result against the specification, source untouched", chunk=50000, prefix="C0")
     run.require_kinds("own/own", "own/reuse", "own/bandiso", "regconc/hook", "crypto/setmic|crypto/crash", "crypto/method|crypto/crash")
     run.rc = run.finish(assumptions=["registry hooks (build tag verif) observe the lock state with TryLock/TryRLock probes: exact under gated replay, one-sided in free-running recordings",
                                      "data races on memory that no hook observes and that change no result are not decidable by trace validation (DESIGN sec. 4); the Go race detector is not on the verdict path",
